@@ -140,11 +140,26 @@ def one_case(ctx, case, tag="gen"):
             it = [[t["lang"], t["default"] == "true()", t["ids"]] for t in obs["translations"]]
             if mt != it:
                 ctx.mismatch("translations (language order, default marks, id order)", case, it, mt)
+            elif [t["forms"] for t in model["translations"]] != [t["forms"] for t in obs["translations"]]:
+                ctx.mismatch("<value form> lists per text (content types, their order, '-' media omitted)", case,
+                             [t["forms"] for t in obs["translations"]], [t["forms"] for t in model["translations"]])
             for k in ("bodyRefs", "bindRefs", "itemIds"):
                 if obs[k] != model[k]:
                     ctx.mismatch(k, case, obs[k], model[k])
             if x["defaultLanguage"] != ic.expected_default_language(case):
                 ctx.mismatch("default_language of the built survey", case, x["defaultLanguage"], ic.expected_default_language(case))
+            g = model["guard"]
+            if not g["wf"]:
+                # hypothesis `wf` of refs_exist: must hold for whatever the builder produces from a workbook
+                ctx.count("guard:wf-false")
+                ctx.mismatch("guard wf (no empty dict in a translatable slot, unique bind-message keys) is false "
+                             "on a builder output", case, "built survey", g)
+            ctx.count("guard:choicesLabeled-" + str(g["choicesLabeled"]).lower())
+            if g["wf"] and g["choicesLabeled"] and not model["holds"]["ok"]:
+                raise vcore.Infra("theorem holds_out contradicted by the driver: " + str(model["holds"]))
+            if g["choicesLabeled"] != (not (unlabeled_itext_choices(form))):
+                ctx.mismatch("F6 shape on the sheet vs guard choicesLabeled on the built survey", case,
+                             sorted(unlabeled_itext_choices(form)), g)
             if model["holds"]["ok"] != ok:
                 ctx.mismatch("oracle verdict on model output vs implementation output", case, ok, model["holds"])
         elif model["outcome"] == "error":
@@ -244,7 +259,7 @@ def explore(ctx, factor, bs):
     fn_cases(ctx)
     for case in directed_cases(rng):
         one_case(ctx, case, tag="directed")
-    n = ctx.pick(700, 20000) * factor
+    n = ctx.pick(2000, 60000) * min(factor, 3)
     for i in range(n):
         directed = {}
         if i % 10 == 0:
